@@ -788,6 +788,60 @@ pub fn grid_cells() -> Vec<Vec<Item>> {
     cells
 }
 
+/// The same operators with their result used as a *memory offset*: `PUSH marker; PUSH b; PUSH a; OP; PUSH32 (E ^ 32k);
+/// XOR; MSTORE`, where E is what the EVM computes for the cell.  Concretely the marker lands at offset 32k; the tool
+/// folds the offset expression, and if its folding of the operator is wrong anywhere in the word the marker lands
+/// somewhere else.  (A result that is only stored is kept as an expression and evaluated by the checker, so a wrong
+/// fold would not show there.)  Operators with known findings (SIGNEXTEND, BYTE, ADDMOD, MULMOD) are left out.
+pub fn fold_offset_programs() -> Vec<Vec<u8>> {
+    let one = U256::ONE;
+    let values: Vec<U256> = vec![U256::ZERO, one, U256::from(0x80u32), U256::from(0xffu32), one << 255, U256::MAX, U256::MAX - one,
+                                 (one << 255) - one, (one << 255) + one];
+    let indices: Vec<U256> = vec![U256::ZERO, one, U256::from(8u32), U256::from(255u32), U256::from(256u32), U256::from(257u32), one << 32,
+                                  one << 64, one << 255, U256::MAX];
+    let push = |w: &U256| {
+        let be = w.to_be_bytes();
+        let first = be.iter().position(|b| *b != 0).unwrap_or(31);
+        Item::Push(be[first..].to_vec())
+    };
+    // (top, second, op)
+    let mut cells: Vec<(U256, U256, u8)> = Vec::new();
+    for op in [0x01u8, 0x02, 0x03, 0x04, 0x05, 0x06, 0x07, 0x10, 0x11, 0x12, 0x13, 0x14, 0x16, 0x17, 0x18] {
+        for a in &values {
+            for b in &values {
+                cells.push((*a, *b, op));
+            }
+        }
+    }
+    for a in &values {
+        for e in [0u32, 1, 2, 3, 8, 255, 256] {
+            cells.push((*a, U256::from(e), 0x0a));
+        }
+        cells.push((*a, (one << 32) + one, 0x0a));
+    }
+    for op in [0x1bu8, 0x1c, 0x1d] {
+        for i in &indices {
+            for v in &values {
+                cells.push((*i, *v, op));
+            }
+        }
+    }
+    let mut programs = Vec::new();
+    for chunk in cells.chunks(12) {
+        let mut items = Vec::new();
+        for (k, (top, second, op)) in chunk.iter().enumerate() {
+            let Some((e, _)) = scratch(op_name(*op), *top, *second) else { continue };
+            items.push(Item::Push(vec![0x4d, k as u8 + 1]));
+            items.extend([push(second), push(top), Item::Op(*op)]);
+            items.push(Item::Push((e ^ U256::from(32 * k as u32)).to_be_bytes().to_vec()));
+            items.extend([Item::Op(0x18), Item::Op(0x52)]);
+        }
+        items.push(Item::Op(0x00));
+        programs.push(assemble(&items));
+    }
+    programs
+}
+
 fn grid_programs(rng: &mut StdRng, fraction: usize) -> Vec<Vec<u8>> {
     let mut cells = grid_cells();
     cells.shuffle(rng);
@@ -834,11 +888,18 @@ pub fn trace(o: &Opts) -> R<()> {
         paths += p;
         nodes += nn;
     }
+    let fold = fold_offset_programs();
+    let n_fold = fold.len();
+    for (i, code) in fold.iter().enumerate() {
+        let (p, nn) = put_path_records(&mut ws[i % shards], code, "fold-offset");
+        paths += p;
+        nodes += nn;
+    }
     let mut recs = 0;
     for w in ws {
         recs += w.finish();
     }
-    println!("{}", json!({"programs": n + n_grid, "grid_programs": n_grid, "grid_cells_total": grid_cells().len(), "paths": paths, "nodes": nodes, "records": recs}));
+    println!("{}", json!({"fold_offset_programs": n_fold, "programs": n + n_grid + n_fold, "grid_programs": n_grid, "grid_cells_total": grid_cells().len(), "paths": paths, "nodes": nodes, "records": recs}));
     Ok(())
 }
 
